@@ -77,6 +77,16 @@ static uint64_t n_point_cap_hits;
 
 extern char __executable_start[], _end[], etext[], edata[];
 
+/* Process-wide state outside memory: a library call that installs a signal disposition changes something every
+ * thread of the process shares (link-time wraps; only calls made from inside an operation count). */
+static int viol_proc_state; static const char *viol_proc_fn = "";
+#define PROC_HOOK(name) do { if (in_sched && cur >= 0 && !viol_proc_state) { viol_proc_state = 1; viol_proc_fn = name; viol_thread = cur; } } while (0)
+typedef void (*verif_sighandler)(int);
+verif_sighandler __real_signal(int, verif_sighandler);
+int __real_sigaction(int, const struct sigaction *, struct sigaction *);
+verif_sighandler __wrap_signal(int sg, verif_sighandler h) { PROC_HOOK("signal"); return __real_signal(sg, h); }
+int __wrap_sigaction(int sg, const struct sigaction *a, struct sigaction *o) { if (a) PROC_HOOK("sigaction"); return __real_sigaction(sg, a, o); }
+
 /* Location keys are independent of absolute heap addresses (which may differ from one
  * execution to the next): (region id, offset), (allocating thread, allocation number,
  * offset), or the absolute address for static memory. */
@@ -284,7 +294,7 @@ static void check_execution(void)
     if (control_mode) {
         for (t = 0; t < nthr; ++t) if (ctxs[t].digest != seq_digest[t]) control_differs = 1;
         if (viol_global_store) control_store = 1;
-        viol_global_store = viol_ro_store = 0;
+        viol_global_store = viol_ro_store = 0; viol_proc_state = 0;
         return;
     }
     for (t = 0; t < nthr; ++t) if (ctxs[t].digest != seq_digest[t]) {
@@ -298,6 +308,13 @@ static void check_execution(void)
                  skip_shared_setup ? "[cold start] " : "", pairname, viol_thread, OPS[cur_ops[viol_thread]].name, (unsigned long)(viol_addr - (uintptr_t)__executable_start));
         record_violation(sig, cd, det);
         viol_global_store = 0;
+    }
+    if (viol_proc_state) {
+        snprintf(sig, sizeof(sig), "C18/process-wide-state-changed/%s", OPS[cur_ops[viol_thread]].name);
+        snprintf(det, sizeof(det), "%s%s: thread %d (%s) called %s(): the library installs a signal disposition, which is state shared by every thread of the process",
+                 skip_shared_setup ? "[cold start] " : "", pairname, viol_thread, OPS[cur_ops[viol_thread]].name, viol_proc_fn);
+        record_violation(sig, cd, det);
+        viol_proc_state = 0;
     }
     if (viol_ro_store) {
         snprintf(sig, sizeof(sig), "C18/store-to-shared-readonly-object/%s", OPS[cur_ops[viol_thread]].name);
@@ -357,7 +374,7 @@ static void run_combo(int n, const int *ops)
     /* sequential digest per slot: run threads one after the other (default schedule) */
     nthr = n; for (t = 0; t < n; ++t) cur_ops[t] = ops[t];
     nW = 0; memset(gtab, 0, sizeof(gtab)); mode = MODE_DISCOVER;
-    viol_global_store = viol_ro_store = 0;
+    viol_global_store = viol_ro_store = 0; viol_proc_state = 0;
     run_execution(NULL, 0);
     for (t = 0; t < n; ++t) seq_digest[t] = ctxs[t].digest;   /* threads ran strictly one after another */
     check_execution();
